@@ -17,29 +17,53 @@ def factor_order(f):
     """row-by-row sparse products C(i,:) += A(i,k) * B(k,:): the value fetched in the outer loop (entry of the left matrix)
     must be the LEFT operand of every multiplication with the value fetched in the loop nested inside it (entry of the right
     matrix) - the order matters for block (non-commuting) value types.
-    Returns [(mul node, ok)] for every multiplication of two such loop-local values."""
+    An operand is a loop-local value `T v = M.val[j]` (fetched in the loop that declares it) or a direct read `M.val[j]`
+    (fetched in the loop whose induction variable is j).
+    Returns [(mul node, ok)] for every multiplication of two such values fetched in properly nested loops."""
     declnode = {}
+    loopvar = {}       # induction / loop-header variable -> loop
     for n in f.nodes.values():
         if n['k'] == 'decl':
             for v in n['v']:
                 declnode[v['d']] = (n, v)
+        if n['k'] == 'for' and n.get('init') is not None:
+            for x in walk(n['init']):
+                if x['k'] == 'decl':
+                    for v in x['v']:
+                        loopvar[v['d']] = n
+
+    def is_val_read(e):
+        e = unwrap(e)
+        if e is None or e['k'] != 'idx':
+            return None
+        b = unwrap(e['b'])
+        if b is None or b['k'] != 'mem' or b['n'] != 'val':
+            return None
+        ix = unwrap(e['x'])
+        return ix if ix is not None and ix['k'] == 'ref' else None
+
+    def fetch_loop(e):
+        """(loop in which the operand's value is fetched, type id) or None"""
+        e = unwrap(e)
+        if e is None:
+            return None
+        if e['k'] == 'ref' and e['d'] in declnode:
+            dn, v = declnode[e['d']]
+            if v.get('init') is not None and is_val_read(v['init']) is not None:
+                return innermost_loop(f, dn)
+            return None
+        ix = is_val_read(e)
+        if ix is not None:
+            if ix['d'] in loopvar:
+                return loopvar[ix['d']]
+            if ix['d'] in declnode:
+                return innermost_loop(f, declnode[ix['d']][0])
+        return None
     out = []
     for n in f.nodes.values():
         if n['k'] != 'bin' or n['op'] != '*':
             continue
-        x, y = unwrap(n['x']), unwrap(n['y'])
-        if x is None or y is None or x['k'] != 'ref' or y['k'] != 'ref' or x['d'] == y['d']:
-            continue
-        if x['d'] not in declnode or y['d'] not in declnode:
-            continue
-        (dx, vx), (dy, vy) = declnode[x['d']], declnode[y['d']]
-        # both are values read from a matrix array: T v = M.val[j]
-        def from_array(v):
-            i = unwrap(v.get('init')) if v.get('init') is not None else None
-            return i is not None and i['k'] == 'idx'
-        if not (from_array(vx) and from_array(vy)) or f.decl(x['d']).get('t') != f.decl(y['d']).get('t'):
-            continue
-        lx, ly = innermost_loop(f, dx), innermost_loop(f, dy)
+        lx, ly = fetch_loop(n['x']), fetch_loop(n['y'])
         if lx is None or ly is None or lx is ly:
             continue
         if is_ancestor(f, lx, ly):
